@@ -7,6 +7,6 @@ CONSTANTS
 INIT Init
 NEXT Next
 VIEW View
-INVARIANTS C11_Count C11_Finished C18_Log C18_Levels C18_CallStack
+INVARIANTS C11_Count C11_Finished C11_Depth C18_Log C18_Levels C18_CallStack
 ACTION_CONSTRAINT EdgeCheck
 CHECK_DEADLOCK FALSE
